@@ -85,6 +85,7 @@ GeomClauses(o) ==
   \cup (IF o.positive = 1 THEN {} ELSE {"GeometryPositive"})
   \cup (IF o.xb = 1 THEN {} ELSE {"CellBoundariesIncreaseAlongPerimeter"})
   \cup (IF o.lsym = 1 THEN {} ELSE {"CentroidDistancesSymmetric"})
+  \cup (IF o.sharedOK = 1 THEN {} ELSE {"SharedCellHasTheFinerWidthFromEverySide"})
 TrGeom == Live("Geom") /\ key' = key /\ Note(GeomClauses(Ev))
 TrSeal == Live("Seal") /\ key' = key /\
           Note((IF Ev.nsc = Cardinality(cells) /\ Cardinality(Dom(key)) = Ev.nsc
